@@ -131,7 +131,7 @@ impl Popen {
         popen_wf(*final(self), final(w).s), frame(*old(self), *final(self)),
         final_is_final(*old(self), *final(self), old(w).s, final(w).s), //[C09]
         final(w).s.kills == old(w).s.kills, final(w).s.n_sleep == old(w).s.n_sleep,
-        r is Ok ==> status_of(*final(self)) == Some(r->Ok_0), //[C09]
+        r is Ok ==> status_of(*final(self)) == Some(r->Ok_0), //[C09,C13,C14]
         r is Err ==> !is_finished(*final(self)) && final(w).s.n_blocking > old(w).s.n_blocking,
 //@end
 //@fn Popen::wait_timeout world=mut
@@ -172,11 +172,11 @@ impl Popen {
     ensures
         popen_wf(*final(self), final(w).s), frame(*old(self), *final(self)), final(w).s.kills == old(w).s.kills,
         // detached: never blocks, never reaps, asks nothing
-        old(self).detached ==> final(w).s == old(w).s && final(self).child_state == old(self).child_state, //[C12]
+        old(self).detached ==> final(w).s == old(w).s && final(self).child_state == old(self).child_state, //[C12,C14,C13]
         // not detached: afterwards the child is known to be dead (reaped here, or found reaped by somebody else),
         // unless the wait itself failed with an error other than ECHILD
-        !old(self).detached ==> is_finished(*final(self)) || final(w).s.n_blocking > old(w).s.n_blocking, //[C12]
-        !old(self).detached && is_finished(*final(self)) ==> (final(w).s.kernel is Reaped || final(w).s.kernel is Gone), //[C12]
+        !old(self).detached ==> is_finished(*final(self)) || final(w).s.n_blocking > old(w).s.n_blocking, //[C12,C14,C13]
+        !old(self).detached && is_finished(*final(self)) ==> (final(w).s.kernel is Reaped || final(w).s.kernel is Gone), //[C12,C14,C13]
 //@end
 }
 
